@@ -9,7 +9,8 @@ import Gengo.Model.Layout
 import Gengo.Model.Resolver
 import Gengo.Model.Pipeline
 import Gengo.Model.Dumper
-import Gengo.Model.InflectTables
+import Gengo.Gen.InflectTables
+import Gengo.Gen.StdList
 import Gengo.Model.DeepCopy
 import Gengo.Model.RuntimeDoc
 import Gengo.Model.TypeLit
@@ -48,7 +49,7 @@ def showTags (r : List (Tags.Str × List Tags.Str) × List Tags.Str) : String :=
   "tags " ++ String.intercalate "," (m.map fun kv => hex kv.1 ++ "=" ++ String.intercalate "|" (kv.2.map hex)) ++
   " others " ++ String.intercalate "," (r.2.map hex)
 
-def stdPaths : List (List Char) := ((include_str "std.list").splitOn "\n").filter (· ≠ "") |>.map String.toList
+def stdPaths : List (List Char) := Gengo.Gen.stdPaths
 def stdTab : List (List Char × List Char) := LocalName.stdTable stdPaths
 
 namespace InflProbe
@@ -316,13 +317,60 @@ def run (fxB : Bool) (args : List String) : String :=
   | _ => "bad-op"
 end ExecProbe
 
-def handle (fxB : Bool) (line : String) : String :=
+namespace C19Drv
+open Camel
+/-- classes: one digit per rune, bit 0 = IsLower, bit 1 = IsUpper, bit 2 = IsDigit (Go's unicode tables,
+    computed by the harness) -/
+def predsOf (s : List Char) (cls : List Char) : Preds :=
+  let tab := s.zip (cls.map fun d => d.toNat - 48)
+  let look (bit : Nat) (c : Char) : Bool := match tab.lookup c with
+    | some b => (b / bit) % 2 == 1
+    | none => false
+  ⟨look 1, look 2, look 4⟩
+
+def bytesOf (h : String) : List UInt8 := if h == "-" then [] else unhexBytes h.toList
+
+def decode (bs : List UInt8) : Option (List Char) :=
+  (String.fromUTF8? (ByteArray.mk bs.toArray)).map (·.toList)
+
+def hexBytes (bs : List UInt8) : String :=
+  if bs.isEmpty then "-" else String.ofList (bs.flatMap fun b => [hexDigit (b.toNat / 16), hexDigit (b.toNat % 16)])
+
+def runSplit (guarded : Bool) (h cls : String) : String :=
+  let bs := bytesOf h
+  let p := predsOf ((decode bs).getD []) cls.toList
+  match splitBytes p guarded decode bs with
+  | none => "panic"
+  | some (.inl ws) => "ok " ++ String.intercalate "|" (ws.map hexBytes)
+  | some (.inr ws) => "ok " ++ String.intercalate "|" (ws.map hex)
+
+/-- `case <linker> <hex> <classes> {<word> <t0> <t1>}*` — per-word transforms supplied by the harness -/
+def runCase (guarded : Bool) (linker h cls : String) (tab : List String) : String :=
+  let bs := bytesOf h
+  match decode bs with
+  | none => "ok " ++ (match tab with | _ :: t0 :: _ => t0 | _ => "missing-word")
+  | some s =>
+    let p := predsOf s cls.toList
+    let rec triples : List String → List (List Char × List Char × List Char)
+      | w :: a :: b :: r => (unhex w, unhex a, unhex b) :: triples r
+      | _ => []
+    let t := triples tab
+    let missing : List Char := "\u0000missing-word".toList
+    let trans (w : List Char) (i : Nat) : List Char := match t.lookup w with
+      | some (a, b) => if i == 0 then a else b
+      | none => missing
+    match makeCase p guarded (unhex linker) trans asciiDropWord s with
+    | none => "panic"
+    | some o => "ok " ++ hex o
+end C19Drv
+
+
+def handle (fx : String → Bool) (line : String) : String :=
+  let fxB := fx "all"
   let fx1 := if fxB then "1" else "0"
   match line.splitOn " " with
-  | ["split", h] =>
-    (match Camel.split asciiPreds fxB (unhex h) with
-     | none => "panic"
-     | some ws => "ok " ++ String.intercalate "|" (ws.map hex))
+  | ["split", h, cls] => C19Drv.runSplit (fx "F1") h cls
+  | "case" :: linker :: h :: cls :: tab => C19Drv.runCase (fx "F1") linker h cls tab
   | ["tref", h] =>
     let s := unhex h
     (match TypeRef.parse fxB (s.length + 2) s with
@@ -387,13 +435,15 @@ def handle (fxB : Bool) (line : String) : String :=
      | some (_, out) => "ok " ++ String.intercalate "," out)
   | _ => "bad-op"
 
-partial def loop (fxB : Bool) (i o : IO.FS.Stream) : IO Unit := do
+partial def loop (fx : String → Bool) (i o : IO.FS.Stream) : IO Unit := do
   let line ← i.getLine
   if line.isEmpty then return ()
-  o.putStrLn (handle fxB (line.dropEndWhile (· == '\n')).toString)
-  loop fxB i o
+  o.putStrLn (handle fx (line.dropEndWhile (· == '\n')).toString)
+  o.flush
+  loop fx i o
 
-/-- `PROBE_FIXED=1` switches every model to its repaired side -/
+/-- `MODEL_FIXED=F1,F4,…` (or `all`): the findings whose repaired model side is active -/
 def main : IO Unit := do
-  let fx := (← IO.getEnv "PROBE_FIXED") == some "1"
+  let ids := ((← IO.getEnv "MODEL_FIXED").getD "").splitOn ","
+  let fx : String → Bool := fun id => ids.contains id || ids.contains "all"
   loop fx (← IO.getStdin) (← IO.getStdout)
